@@ -11,6 +11,7 @@
 mod util;
 #[macro_use]
 mod types;
+mod mk;
 mod bitmap;
 mod volatile;
 mod guest;
